@@ -47,6 +47,11 @@ type Run struct {
 	Nontrivial atomic.Int64
 	Caps       []string
 	notes      []string
+
+	child         *childState
+	added         map[string]int64
+	keys          map[string]struct{}
+	distinctExtra int
 }
 
 func Begin(id, level string, args []string) *Run {
@@ -63,6 +68,7 @@ func Begin(id, level string, args []string) *Run {
 	if s := os.Getenv("VERIF_SEED"); s != "" {
 		r.Seed, _ = strconv.Atoi(s)
 	}
+	r.child = parseShard(args)
 	b, err := os.ReadFile(filepath.Join(Root, "known_findings.json"))
 	if err == nil {
 		var all []Finding
@@ -115,6 +121,10 @@ func (r *Run) Known(sig string) bool {
 func (r *Run) Violation(sig, what string, replay any) bool {
 	r.mu.Lock()
 	defer r.mu.Unlock()
+	if r.child != nil {
+		r.childViolation(sig, what, replay)
+		return r.knownOpenLocked(sig)
+	}
 	if r.knownOpenLocked(sig) {
 		r.knownSeen[sig]++
 		return true
@@ -165,13 +175,16 @@ func (r *Run) Distinct(key string) {
 func (r *Run) DistinctN() int {
 	r.mu.Lock()
 	defer r.mu.Unlock()
-	return len(r.distinct)
+	return len(r.distinct) + r.distinctExtra
 }
 
 type Coverage map[string]any
 
 // Finish writes the evidence file, prints the verdict and exits.
 func (r *Run) Finish(cov Coverage, assumptions []string) {
+	if r.child != nil {
+		r.childFinish()
+	}
 	wall := time.Since(r.start).Seconds()
 	r.mu.Lock()
 	if cov == nil {
@@ -181,7 +194,7 @@ func (r *Run) Finish(cov Coverage, assumptions []string) {
 		cov["evaluations"] = r.Evals.Load()
 	}
 	if _, ok := cov["distinct_nontrivial"]; !ok {
-		n := int64(len(r.distinct))
+		n := int64(len(r.distinct) + r.distinctExtra)
 		if n == 0 {
 			n = r.Nontrivial.Load()
 		}
